@@ -320,12 +320,16 @@ class _Interval:
 
     def _split(self, midway):
         if self._top._halfway_tree:
-            self._split_exact(0.5 * (self._end + self._start))
-            # self._midway is now the rounded halfway point.
-            if midway > self._midway:
-                self._right_child._split(midway)
-            elif midway < self._midway:
-                self._left_child._split(midway)
+            interval = self
+            while True:
+                interval._split_exact(0.5 * (interval._end + interval._start))
+                # interval._midway is now the rounded halfway point.
+                if midway > interval._midway:
+                    interval = interval._right_child
+                elif midway < interval._midway:
+                    interval = interval._left_child
+                else:
+                    break
         else:
             self._split_exact(midway)
 
@@ -610,7 +614,8 @@ class BrownianInterval(brownian_base.BaseBrownian, _Interval):
         if ta > tb:
             raise RuntimeError(f"Query times ta={ta:.3f} and tb={tb:.3f} must respect ta <= tb.")
 
-        if ta == tb:
+        # Compare at the resolution of the tolerance: a query whose end points coincide after rounding is of zero length.
+        if self._round(ta) == self._round(tb):
             W = torch.zeros(self._size, dtype=self._dtype, device=self._device)
             H = None
             A = None
